@@ -91,6 +91,56 @@ fn is_cont(t: &Token) -> bool {
     matches!(&t.tok, Tok::Sym(s) if CONTINUATION.contains(s))
 }
 
+fn same_tokens(toks: &[Token], cand: &str) -> bool {
+    let (t2, e2) = lex_raw(cand);
+    e2.is_none() && t2.len() == toks.len() && t2.iter().zip(toks.iter()).all(|(a, b)| tok_eq(&a.tok, &b.tok))
+}
+
+/// equal kinds and values (where a slot sits in the file is not part of the value)
+fn tok_eq(a: &Tok, b: &Tok) -> bool {
+    use crate::refm::lex::Piece;
+    match (a, b) {
+        (Tok::Interp(x), Tok::Interp(y)) => {
+            x.len() == y.len()
+                && x.iter().zip(y.iter()).all(|(p, q)| match (p, q) {
+                    (Piece::Slot { src: s1, .. }, Piece::Slot { src: s2, .. }) => s1 == s2,
+                    (Piece::Lit(l1), Piece::Lit(l2)) => l1 == l2,
+                    _ => false,
+                })
+        }
+        _ => a == b,
+    }
+}
+
+/// `src` with every space / tab separator removed that the tokens on either side do not need
+/// (None when the text does not lex or nothing can be removed)
+pub fn dense(src: &str) -> Option<String> {
+    let (toks, err) = lex_raw(src);
+    if err.is_some() {
+        return None;
+    }
+    let mut cur = src.to_string();
+    let mut changed = false;
+    // right to left, so that the offsets of the tokens before a removal stay valid
+    for i in (0..toks.len().saturating_sub(1)).rev() {
+        let (a, b) = (toks[i].end, toks[i + 1].start);
+        let gap = &src[a..b];
+        if gap.is_empty() || !gap.chars().all(|c| c == ' ' || c == '\t') {
+            continue;
+        }
+        let cand = splice(&cur, a, gap.len(), "");
+        if same_tokens(&toks, &cand) {
+            cur = cand;
+            changed = true;
+        }
+    }
+    if changed {
+        Some(cur)
+    } else {
+        None
+    }
+}
+
 /// All single layout edits of `src` (empty when the text does not lex).
 pub fn edits(src: &str) -> Vec<Edit> {
     let (toks, err) = lex_raw(src);
@@ -127,6 +177,13 @@ pub fn edits(src: &str) -> Vec<Edit> {
         if gap == " " {
             for (ws, name) in [("\t", "tab"), ("\r", "carriage return"), ("  ", "two spaces"), ("\r ", "CR space")] {
                 out.push(mk(splice(src, t.end, 1, ws), format!("the space after token {} written as {}", i, name), EditKind::Neutral, t.end, 1, ws.len()));
+            }
+        }
+        // a''. the separator removed where the two tokens stay apart without it
+        if next.is_some() && !gap.is_empty() && gap.chars().all(|c| c == ' ' || c == '\t') && err.is_none() {
+            let cand = splice(src, t.end, gap.len(), "");
+            if same_tokens(&toks, &cand) {
+                out.push(mk(cand, format!("the separator after token {} removed", i), EditKind::Neutral, t.end, gap.len(), 0));
             }
         }
         // b. comment
